@@ -16,7 +16,7 @@ from mc.report import Report
 
 LEVEL = "model_checking"
 RULE = ("BFS from every start object (class in {BaseSamples, Samples, SMCSamples} x {numpy,torch,jax} x {float32,float64} x "
-        "8 subsets of the optional fields x parameter names stored in non-lexicographic order (b, a) [and (a, b) for numpy], 4 tagged rows; SMCSamples also with zero-valued temperature / evidence) over the action alphabet {int index 0/-1, 3 slices, 2 boolean masks (also one written as a Python list), "
+        "8 subsets of the optional fields x parameter names stored in non-lexicographic order (b, a) [and (a, b) for numpy], 4 tagged rows; SMCSamples also with zero-valued temperature / evidence; unweighted Samples also with an evidence given by their producer) over the action alphabet {int index 0/-1, 3 slices, 2 boolean masks (also one written as a Python list), "
         "2 index arrays (reversal, repeats), partition at each cut + concatenate (also with one piece pickled / dict-converted in between, or holding its columns in another order), pickle round trip, to_dict->from_dict flat/"
         "nested/flat without copying} to depth 3 (quick) / 4 (thorough); abstract state = (class, namespace, dtype, row-tag tuple, field presence, "
         "evidence tag); every transition is executed on the implementation and the resulting object compared with the "
@@ -29,6 +29,7 @@ ASSUMPTIONS = [
 ]
 
 N0 = 4
+GIVEN = {"on": False}  # Samples start objects without proposal density (unweighted) that carry an evidence given by their producer (what an SMC run returns)
 ZERO = {"on": False}  # start objects whose set-level attributes are zero (beta = 0: the first SMC population; evidence 0.0)
 NAMES = ["b", "a"]  # storage order (column 0 is "b"): deliberately not the lexicographic order of the names
 EV_SMC = -1.25
@@ -42,7 +43,7 @@ class Model:
         self.cls, self.ns, self.dt, self.flags, self.tags, self.ev, self.row = cls, ns, dt, flags, tuple(tags), ev, row
 
     def key(self):
-        return (self.cls, self.ns, self.dt, self.flags, self.tags, self.ev, self.row, tuple(NAMES), ZERO["on"])
+        return (self.cls, self.ns, self.dt, self.flags, self.tags, self.ev, self.row, tuple(NAMES), ZERO["on"], GIVEN["on"])
 
 
 def start(cls, ns, dt, flags, names=None, zero=False):
@@ -50,6 +51,8 @@ def start(cls, ns, dt, flags, names=None, zero=False):
 
     if names is not None:
         NAMES[:] = list(names)
+    GIVEN["on"] = zero == "given"
+    zero = zero is True
     ZERO["on"] = bool(zero)
 
     xp = get_xp(ns)
@@ -66,7 +69,10 @@ def start(cls, ns, dt, flags, names=None, zero=False):
     if cls == "SMCSamples":
         kw.update(beta=0.0 if zero else 0.5, log_evidence=0.0 if zero else EV_SMC, log_evidence_error=0.0 if zero else ERR_SMC)
     obj = C(x=xp.asarray(x), xp=xp, dtype=get_dtype(ns, dt), parameters=list(NAMES), **kw)
-    if cls == "Samples":
+    if cls == "Samples" and GIVEN["on"] and not flags[2]:
+        obj.log_evidence, obj.log_evidence_error = EV_SMC, ERR_SMC  # as to_standard_samples() / a sampler's return value
+        ev = "fixed"
+    elif cls == "Samples":
         ev = "computed:" + ",".join(map(str, range(N0))) if all(flags) else None
     elif cls == "SMCSamples":
         ev = "given"
@@ -267,6 +273,13 @@ def compare(obj, model):
         if model.ev is None:
             if ev is not None:
                 out.append(("evidence-appeared", float(tonp(ev))))
+        elif model.ev == "fixed":
+            if ev is None:
+                out.append(("evidence-lost/given-to-unweighted-set", None))
+            elif float(tonp(ev)) != EV_SMC:
+                out.append(("evidence-changed/given-to-unweighted-set", float(tonp(ev))))
+            elif obj.log_evidence_error is None or float(tonp(obj.log_evidence_error)) != ERR_SMC:
+                out.append(("evidence-error-lost/given-to-unweighted-set", None))
         else:
             rows = [int(t) for t in model.ev.split(":")[1].split(",")]
             want = math.log(sum(math.exp(float(t)) for t in rows) / len(rows))  # log mean exp(L+pi-q) = log mean exp(t)
@@ -422,6 +435,8 @@ def run(tier, seed, workers):
                     jobs.append((cls, ns, dt, flags, d, ("b", "a")))
                     if ns == "numpy" and (tier == "thorough" or dt == "float64"):
                         jobs.append((cls, ns, dt, flags, d, ("a", "b")))
+                    if cls == "Samples" and not flags[2] and (ns == "numpy" or tier == "thorough") and flags[:2] in ((True, True), (False, False)):
+                        jobs.append((cls, ns, dt, flags, d, ("b", "a"), "given"))
                     if cls == "SMCSamples" and (ns != "jax" or tier == "thorough") and flags in ((True, True, True), (False, False, False)):
                         jobs.append((cls, ns, dt, flags, d, ("b", "a"), True))
     jobs.sort(key=lambda j: (j[1] != "jax", j[1] != "torch"))
